@@ -2,10 +2,12 @@
 use crate::common::Ctx;
 use serde_json::Value;
 
+pub mod c01;
 pub mod c05;
 pub mod c07;
 pub mod c07_sched;
 pub mod c08;
+pub mod c09;
 pub mod c11;
 pub mod c12;
 pub mod c13;
@@ -24,9 +26,11 @@ pub fn level_of(id: &str) -> &'static str {
 
 pub fn run(id: &str, ctx: &Ctx) -> bool {
     match id {
+        "C01" => c01::run(ctx),
         "C05" => c05::run(ctx),
         "C07" => c07::run(ctx),
         "C08" => c08::run(ctx),
+        "C09" => c09::run(ctx),
         "C11" => c11::run(ctx),
         "C12" => c12::run(ctx),
         "C13" => c13::run(ctx),
@@ -41,9 +45,11 @@ pub fn run(id: &str, ctx: &Ctx) -> bool {
 
 pub fn replay(id: &str, ctx: &Ctx, case: &Value) -> Option<()> {
     match id {
+        "C01" => c01::check_case(ctx, case),
         "C05" => c05::check_case(ctx, case),
         "C07" => c07::check_case(ctx, case),
         "C08" => c08::check_case(ctx, case),
+        "C09" => c09::check_case(ctx, case),
         "C11" => c11::check_case(ctx, case),
         "C12" => c12::check_case(ctx, case),
         "C13" => c13::check_case(ctx, case),
